@@ -275,7 +275,7 @@ func (jenny RawTypes) defaultsForStructRec(context languages.Context, objectRef 
 
 		// nolint:gocritic
 		if extraDefault, ok := extraDefaults[field.Name]; ok {
-			defaultValue = formatScalar(extraDefault)
+			defaultValue = jenny.formatDefaultValue(field.Type, resolvedFieldType, extraDefault)
 
 			if field.Type.IsRef() && resolvedFieldType.IsStructGeneratedFromDisjunction() {
 				disjunctionBranchName := formatFieldName(anyToDisjunctionBranchName(extraDefault))
@@ -305,15 +305,7 @@ func (jenny RawTypes) defaultsForStructRec(context languages.Context, objectRef 
 
 			defaultValue = jenny.maybeValueAsPointer(defaultValue, field.Type.Nullable, resolvedFieldType)
 		} else if resolvedFieldType.IsAnyOf(ast.KindScalar, ast.KindMap, ast.KindArray) && field.Type.Default != nil {
-			defaultValue = formatScalar(field.Type.Default)
-
-			// lists are literals of the field's own type: `[]int64{1, 2}`, not `[]string{1, 2}`
-			if items, isList := field.Type.Default.([]any); isList && resolvedFieldType.IsArray() {
-				listType := field.Type.DeepCopy()
-				listType.Nullable = false
-
-				defaultValue = jenny.typeFormatter.formatType(listType) + "{" + strings.Join(tools.Map(items, formatScalar), ", ") + "}"
-			}
+			defaultValue = jenny.formatDefaultValue(field.Type, resolvedFieldType, field.Type.Default)
 
 			defaultValue = jenny.maybeValueAsPointer(defaultValue, field.Type.Nullable, resolvedFieldType)
 		} else if field.Type.IsRef() && resolvedFieldType.IsStruct() && field.Type.Default != nil {
@@ -399,4 +391,18 @@ func (jenny RawTypes) maybeValueAsPointer(value string, nullable bool, typeDef a
 
 	// we don't use cog.ToPtr() to avoid a dependency on cog's runtime
 	return fmt.Sprintf("(func (input %[1]s) *%[1]s { return &input })(%[2]s)", typeHint, value)
+}
+
+// formatDefaultValue formats a default value for a field. Lists are literals of the
+// field's own type: `[]int64{1, 2}`, not `[]string{1, 2}`.
+func (jenny RawTypes) formatDefaultValue(fieldType ast.Type, resolvedFieldType ast.Type, value any) string {
+	items, isList := value.([]any)
+	if !isList || !resolvedFieldType.IsArray() {
+		return formatScalar(value)
+	}
+
+	listType := fieldType.DeepCopy()
+	listType.Nullable = false
+
+	return jenny.typeFormatter.formatType(listType) + "{" + strings.Join(tools.Map(items, formatScalar), ", ") + "}"
 }
